@@ -131,3 +131,21 @@ def loop_heads(f):
             for p in blocks[x]['preds']:
                 work.append(p)
     return heads
+
+
+def local_names_seq(f):
+    """Source names of the locals of a function in order of first appearance in the SSA (parameters first).  The
+    sequence is invariant under a pure renaming of locals; contracts name locals, so a renaming is recognised by
+    comparing this sequence with the one recorded when the baseline was written (check.py / symex.local_env)."""
+    seq = []
+    seen = set()
+    for p_ in f.get('params') or []:
+        if p_['n'] not in seen:
+            seen.add(p_['n'])
+            seq.append(p_['n'])
+    for b in f.get('blocks') or []:
+        for x in b.get('instrs') or []:
+            if x.get('op') == 'DebugRef' and x.get('ident') and x['ident'] not in seen:
+                seen.add(x['ident'])
+                seq.append(x['ident'])
+    return seq
